@@ -931,6 +931,15 @@ func (env *SpecEnv) evalCall(x *SExpr) Value {
 		}
 		bt := boxType(t)
 		return env.e.loadPlace(env.st, &Place{Kind: PField, Base: v.L[1], Root: bt, Path: ".v", Typ: t}, env.view)
+	case "boxed":
+		// boxed(ref, T): the value of type T stored in the interface box at ref
+		v := ev(0)
+		t := env.specType(args[1].String())
+		if pointerShaped(t) {
+			return Value{T: t, L: []Term{refLeaf(v)}}
+		}
+		bt := boxType(t)
+		return env.e.loadPlace(env.st, &Place{Kind: PField, Base: refLeaf(v), Root: bt, Path: ".v", Typ: t}, env.view)
 	case "mkiface":
 		return Value{T: types.NewInterfaceType(nil, nil), L: []Term{t1(0), t1(1)}}
 	case "dyntype":
